@@ -317,6 +317,13 @@ def plan(tier, seed):
           edges.append((a, b))
       ks = [k for a, b in edges for k in range(a, b) if not lo <= k < mid]
       fams.append(_mk_list_family(f"frames-minute-edges-{rs}", rate, ks))
+    # beyond 24 h: labels do not wrap (+-2 s around 24 h, 25 h 30 min, 48 h and 99 h 59 min 59 s)
+    w = 2 * math.ceil(rate)
+    far = []
+    for secs in (24 * 3600, 25 * 3600 + 1800, 48 * 3600, 99 * 3600 + 59 * 60 + 59):
+      c = math.ceil(Fraction(secs) * rate)
+      far.extend(range(c - w, c + w if secs < 99 * 3600 else c))
+    fams.append(_mk_list_family(f"frames-beyond-24h-{rs}", rate, far))
   # ClockTime
   span = 2 * 3600 * 1000 if tier == "thorough" else 5 * 60 * 1000
   fams.append(_mk_clock_family("clock-every-ms", lambda i: i, span, "every millisecond from 0"))
